@@ -1,7 +1,68 @@
 """C18 — Explicit removal and vanish remove exactly their targets."""
+import os, shutil
 from ._store import run_store
+from ..common import hx, RUNDIR
+from ..gen import ev_tok, fl_tok, AUTHORS, ID
+from ..storecheck import HistGen
+from ..conc import forced
 
 THEOREMS = ['remove_exact', 'removed_is_gone', 'others_stay', 'resubmit_after_remove', 'resubmit_not_deleted_by_removal', 'vanish_only_removes', 'vanish_exact', 'ephemeral_never_live', 'ephemeral_from_source']
+
+
+def races(c, runner):
+    """a removal (remove_event, or vanish of the author) overlapping lookups of the very event being removed: the remover is
+    paused at each yield point of its transaction while another thread asks for the event by id (has_event, get_event_by_id, a
+    query listing the id); once the removal has returned, the event is unretrievable by every path - whatever the concurrent
+    reader saw - and, no marker having been left, may be stored again (oracle: the property text; no model involved)."""
+    rng = c.rng
+    Q = c.tier == 'quick'
+    base = os.path.join(RUNDIR, 'C18r-%d' % os.getpid())
+    os.makedirs(base, exist_ok=True)
+    try:
+        scen = []
+        fb = dict(ids=[], authors=[], kinds=[], tags=[], since=None, until=None, limit=None)
+        for k in range(3 if Q else 30):
+            g = HistGen(rng, 'C18')
+            pk = rng.choice(AUTHORS)
+            x = g.new_event(kind=rng.choice([1, 30023, 10002]), pk=pk, t=1000, tags=[[b'd', b'x'], [b't', b'a']], content=b'to be removed')
+            other = g.new_event(kind=1, pk=rng.choice([a for a in AUTHORS if a != pk]), t=1000, tags=[[b't', b'a']], content=b'bystander')
+            pre = ['STO ' + ev_tok(x), 'STO ' + ev_tok(other), 'HAS ' + hx(x['id'])]
+            byid = 'FND %s 1 0 0 m' % fl_tok(dict(fb, ids=[x['id']]))
+            byauthor = 'FND %s 1 0 0 m' % fl_tok(dict(fb, authors=[pk]))
+            after = ['HAS ' + hx(x['id']), 'GID ' + hx(x['id']), byid, byauthor, 'DEL ' + hx(x['id']), 'HAS ' + hx(other['id']), 'STO ' + ev_tok(x), 'HAS ' + hx(x['id'])]
+            for remover, points in (('REM ' + hx(x['id']), ['remove:txn', 'remove:before_commit', 'remove:committed']),
+                                    ('VAN ' + hx(pk), ['vanish:next', 'remove:txn', 'remove:before_commit', 'remove:committed'])):
+                for p in points:
+                    for reader in ('HAS ' + hx(x['id']), 'GID ' + hx(x['id']), byid):
+                        scen.append(dict(pre=pre, point=p, a=remover, b=reader, after=after, what=remover[:3], xid=x['id']))
+        for s_, r in zip(scen, forced(c, base, scen, tag='v')):
+            if 'error' in r or 'HUNG' in r.get('raw', '') or 'panic' in r.get('raw', ''):
+                c.violation('oracle', 'forced schedule did not complete: %s' % (r.get('error') or r['raw'])[:90], r['lines'])
+                continue
+            c.count('removal-race:%s:%s:%s' % (s_['what'], s_['point'], 'reached' if r['reached'] else 'not-reached'))
+            if not r['ra'].startswith('ok'):
+                c.violation('oracle', 'the removal itself failed under the schedule: %s' % r['ra'][:30], r['lines'])
+                continue
+            has, gid, byid_r, byauthor_r, dl, hother, again, has2 = r['after']
+            idhex = hx(s_['xid'])
+            why = None
+            if has != '0' or gid != 'none':
+                why = 'has_event / get_event_by_id still find it (%s, %s)' % (has, gid[:12])
+            elif idhex in byid_r or idhex in byauthor_r:
+                why = 'a query still returns it'
+            elif dl != '0':
+                why = 'a deletion marker was left'
+            elif hother != '1':
+                why = 'another event disappeared'
+            elif not again.startswith('ok') or has2 != '1':
+                why = 'storing it again replied %s' % again[:12]
+            if why:
+                c.violation('oracle', 'after %s (paused at %s while another thread looked the event up) returned: %s' % (
+                    'remove_event' if s_['what'] == 'REM' else 'vanish', s_['point'], why), r['lines'])
+            elif r['reached']:
+                c.nontriv(('removal-race', s_['what'], s_['point'], s_['b'][:3]))
+    finally:
+        shutil.rmtree(base, ignore_errors=True)
 
 
 def run():
